@@ -134,13 +134,14 @@ PROPS = {
                            'exactly 1 without cache; composition untainted + requested = delta unless clamped (C07_remainder). Float layer: the model executes binary64 round-to-nearest-even on rationals (rne64) and is compared bit for bit (Float64bits) with Go on every case; '
                            'the statement "float result >= exact need" is false at extreme magnitudes (C05_float_short_witness, finding T2). Proved instead: for every rounding function obeying the standard model with unit round-off u (relative error <= u per operation, integers up to 2^53 exact) the value that is ceiled differs from the exact one by at most (n/T)(8uP+4uT) = 8u*N + 4u*n (C05_float_error; from zero: 4u*N, C05_from_zero_float_error), so the requested count is within one node of the exact minimal count whenever that budget is below 1 (C05_float_within_one, C05_from_zero_within_one); rne64, the function the driver executes and Go is compared with bit for bit, obeys the standard model with u = 2^-53 (StdModel_rne64, C05_rne64_within_one). Not proved: that the float result is never one short inside the budget region (it can be: the exact-rational monitor on each observed delta reports a short result that is not the listed finding).',
                 level_note=LEVEL_NOTE + ' Go float64 arithmetic = IEEE-754 binary64 RNE (checked bit-for-bit against the model on every run, not proved).'),
-    'C06': dict(level='proof', module='EscProofs.P.C06', streams=hist('C06', focus='bands'),
+    'C06': dict(level='proof', module='EscProofs.P.C06Starve', streams=hist('C06', focus='bands'),
                 aspects=['hist:taintadds', 'hist:untaints', 'hist:resize', 'hist:delta'], monitors=['C06'],
                 theorems=['Esc.P.C06_bands', 'Esc.P.C06_triggers', 'Esc.P.C06_triggers_off', 'Esc.P.C06_taint_rate', 'Esc.P.C06_idle_band',
-                          'Esc.P.C06_up_never_taints', 'Esc.P.C06_down_never_adds', 'Esc.P.taintLoop_count_all_ok'],
-                technique='Lean 4 theorem (band case analysis for any rounding function; exact taint count when no attempt fails; journal shape of the idle and scale-up branches) + differential correspondence at threshold neighbourhoods + exact-rational band oracle as monitor',
+                          'Esc.P.C06_up_never_taints', 'Esc.P.C06_down_never_adds', 'Esc.P.taintLoop_count_all_ok',
+                          'Esc.P.C06_starve_iff', 'Esc.P.C06_starve_scales_up'],
+                technique='Lean 4 theorem (band case analysis for any rounding function; exact taint count when no attempt fails; journal shape of the idle and scale-up branches) + differential correspondence at threshold neighbourhoods + exact-rational band oracle and documented-starve oracle as monitors',
                 level_text='C06_bands: the decision is -fast / -slow / 0 / scale-up formula according to where max(cpu%,mem%) (as computed) lies relative to the three thresholds (as converted), for every rounding function; C06_taint_rate: exactly min(rate, untainted - min) nodes are tainted when no attempt fails; '
-                           'C06_idle_band: decision 0 yields only reaping; C06_up_never_taints; C06_triggers: starve / max-age only raise the decision to >= 1. Which side of a threshold the *float* utilisation falls on within 2^-40 relative of it is not claimed: the monitor treats that neighbourhood as either-side. '
+                           'C06_idle_band: decision 0 yields only reaping; C06_up_never_taints; C06_triggers: starve / max-age only raise the decision to >= 1; C06_starve_iff: the starve trigger computed from the largest-pending / largest-available digests is exactly the documented condition (option on, some pending pod asks in CPU or memory for more than any untainted node has left, untainted < max_nodes), so C06_starve_scales_up: under that condition the decision is >= 1 in every band. Which side of a threshold the *float* utilisation falls on within 2^-40 relative of it is not claimed: the monitor treats that neighbourhood as either-side. '
                            'Tie: hist (requests placed at threshold*capacity/100 +-2) on taint/untaint/resize calls and the decision delta; band oracle on exact rationals over observed journals.',
                 level_note=LEVEL_NOTE),
     'C07': dict(level='proof', module='EscProofs.P.C07',
@@ -154,7 +155,10 @@ PROPS = {
                            'C07_on_top + tryDelete_desired: SetDesiredCapacity = cached desired + amount, the cached desired having been decremented once per accepted termination of the same scan. Tie: hist (up-focused: tainted nodes + high load + force removals) and awsops (cached desired after DeleteNodes); '
                            'monitors: order, reuse, amount <= N - accepted untaints on top of the running desired size.',
                 level_note=LEVEL_NOTE),
-    'C08': dict(level='proof', module='EscProofs.P.C08', streams=hist('C08', focus='ties'),
+    'C08': dict(level='proof', module='EscProofs.P.C08',
+                streams=dict(quick=[('scenario', ['-dir', '@ROOT/corpus/C08']), ('hist', ['-n', 400, '-scans', 10, '-focus', 'ties']), ('hist', ['-n', 200, '-scans', 10, '-focus', 'faults'])],
+                             thorough=[('scenario', ['-dir', '@ROOT/corpus/C08']), ('hist', ['-n', 20000, '-scans', 12, '-focus', 'ties']), ('hist', ['-n', 10000, '-scans', 12, '-focus', 'faults'])],
+                             search=[('hist', ['-n', 1500, '-scans', 12, '-focus', 'faults']), ('hist', ['-n', 1500, '-scans', 12, '-focus', 'ties'])]),
                 aspects=['hist:taintadds', 'hist:gets'], monitors=['C08'],
                 theorems=['Esc.P.C08_oldest', 'Esc.P.C08_history', 'Esc.P.taintLoop_oldest', 'Esc.orderBy_pairwise', 'Esc.orderBy_perm', 'Esc.taintLoop_spec'],
                 technique='Lean 4 theorem (the visiting order is a sorted permutation whatever the sort does among ties; the taint loop attempts a prefix of it) + differential correspondence with the observed sort order validated per case + monitor',
